@@ -15,17 +15,17 @@ Prop == IF "VERIF_PROP" \in DOMAIN IOEnv THEN IOEnv.VERIF_PROP ELSE "ALL"
 ON(p) == Prop = p \/ Prop = "ALL"
 G(p, cond) == ON(p) => cond
 
-VARIABLES l, cfg, sp, cp, enters, vetoSeen, cveto, hexit, done
-vars == <<l, cfg, sp, cp, enters, vetoSeen, cveto, hexit, done>>
+VARIABLES l, cfg, sp, cp, enters, vetoSeen, cveto, hexit, done, ppanic
+vars == <<l, cfg, sp, cp, enters, vetoSeen, cveto, hexit, done, ppanic>>
 Ev == Trace[l]
 Is(e) == l <= N /\ Ev.ev = e
 Step == l' = l + 1 /\ TLCSet(1, l)
-Init == l = 1 /\ cfg = [kind |-> "none"] /\ sp = 0 /\ cp = 0 /\ enters = 0 /\ vetoSeen = FALSE /\ cveto = "none" /\ hexit = "none" /\ done = FALSE /\ TLCSet(1, 0)
+Init == l = 1 /\ cfg = [kind |-> "none"] /\ sp = 0 /\ cp = 0 /\ enters = 0 /\ vetoSeen = FALSE /\ cveto = "none" /\ hexit = "none" /\ done = FALSE /\ ppanic = "none" /\ TLCSet(1, 0)
 
 PreHandlerStages == {"PostReadCallHeader", "PreReadCallBody", "PostReadCallBody", "PostReadPushHeader", "PreReadPushBody", "PostReadPushBody"}
 CliReadStages == {"PostReadReplyHeader", "PreReadReplyBody", "PostReadReplyBody"}
 
-Reset == Is("Reset") /\ cfg' = Ev /\ sp' = 0 /\ cp' = 0 /\ enters' = 0 /\ vetoSeen' = FALSE /\ cveto' = "none" /\ hexit' = "none" /\ done' = FALSE /\ Step
+Reset == Is("Reset") /\ cfg' = Ev /\ sp' = 0 /\ cp' = 0 /\ enters' = 0 /\ vetoSeen' = FALSE /\ cveto' = "none" /\ hexit' = "none" /\ done' = FALSE /\ ppanic' = "none" /\ Step
 
 \* C09: hooks fire in the documented stage order and registration order, each at most once,
 \*      only for plugins of the global container or of the matched route's chain
@@ -40,6 +40,7 @@ Hook ==
          ELSE /\ G("C09", cp < Len(cfg.expchooks) /\ cfg.expchooks[cp + 1] = Ev.pl \o "." \o Ev.stage)
               /\ cp' = cp + 1 /\ UNCHANGED <<sp, vetoSeen>>
               /\ cveto' = IF Ev.verdict = "veto" THEN Ev.stage ELSE cveto
+  /\ ppanic' = IF Ev.verdict = "panic" THEN Ev.stage ELSE ppanic     \* a hook that panicked
   /\ UNCHANGED <<cfg, enters, hexit, done>> /\ Step
 
 \* C03: at most one handler per message; C09: none after a vetoing pre-handler hook
@@ -47,9 +48,9 @@ HEnter ==
   /\ Is("HEnter")
   /\ G("C03", enters = 0)
   /\ G("C09", ~vetoSeen)
-  /\ enters' = enters + 1 /\ UNCHANGED <<cfg, sp, cp, vetoSeen, cveto, hexit, done>> /\ Step
+  /\ enters' = enters + 1 /\ UNCHANGED <<cfg, sp, cp, vetoSeen, cveto, hexit, done, ppanic>> /\ Step
 
-HExit == Is("HExit") /\ hexit' = Ev.outcome /\ UNCHANGED <<cfg, sp, cp, enters, vetoSeen, cveto, done>> /\ Step
+HExit == Is("HExit") /\ hexit' = Ev.outcome /\ UNCHANGED <<cfg, sp, cp, enters, vetoSeen, cveto, done, ppanic>> /\ Step
 
 CliReadVeto == cveto \in CliReadStages                      \* a reading-side hook of the caller vetoed
 CliWriteVeto == cveto \in {"PreWriteCall", "PreWritePush"}   \* a pre-write hook of the caller vetoed
@@ -57,13 +58,17 @@ IsVetoTriple == Ev.code = 777 /\ Ev.msg = "veto-msg" /\ Ev.cause = "veto-cause"
 
 \* C04: OK iff the handler ran to completion, returned OK and the reply was decoded; otherwise exactly the
 \*      handler's code/message/cause, or the framework rule that applies
+\* with a panicking plugin only the "only if" direction is demanded (the statement does not say which
+\* error a plugin panic becomes): OK still needs a handler that returned OK and a decoded reply
 StatusRule ==
-  IF Ev.code = 0
-    THEN hexit = "ok" /\ cfg.rdec = "ok" /\ ~CliReadVeto /\ Ev.resok
+  IF ppanic # "none" THEN (Ev.code = 0 => hexit = "ok" /\ cfg.rdec = "ok" /\ Ev.resok)
+  ELSE IF Ev.code = 0
+    THEN hexit = "ok" /\ cfg.hout # "unpackable" /\ cfg.rdec = "ok" /\ ~CliReadVeto /\ Ev.resok
     ELSE CASE hexit = "status" -> IF CliReadVeto THEN IsVetoTriple
                                   ELSE Ev.code = 1001 /\ Ev.msg = "hmsg" /\ Ev.cause = "hcause"
            [] hexit = "panic"  -> IF CliReadVeto THEN IsVetoTriple ELSE Ev.code = 500 /\ Ev.msg = "Internal Server Error"
            [] hexit = "ok"     -> IF CliReadVeto THEN IsVetoTriple
+                                  ELSE IF cfg.hout = "unpackable" THEN Ev.code = 500 /\ Ev.msg = "Internal Server Error"
                                   ELSE cfg.rdec = "bad" /\ Ev.code = 400 /\ Ev.msg = "Bad Message"
            [] OTHER            -> \* the handler was not invoked
                 IF vetoSeen \/ CliReadVeto \/ CliWriteVeto THEN IsVetoTriple
@@ -74,13 +79,13 @@ StatusRule ==
 CallDone ==
   /\ Is("CallDone") /\ cfg.kind = "call" /\ ~done
   /\ G("C04", StatusRule)
-  /\ done' = TRUE /\ UNCHANGED <<cfg, sp, cp, enters, vetoSeen, cveto, hexit>> /\ Step
+  /\ done' = TRUE /\ UNCHANGED <<cfg, sp, cp, enters, vetoSeen, cveto, hexit, ppanic>> /\ Step
 
 \* C09: a vetoing pre-write hook on the pushing side is what Push returns; otherwise a written push is OK
 PushRet ==
   /\ Is("PushRet") /\ cfg.kind = "push" /\ ~done
-  /\ G("C09", IF CliWriteVeto THEN Ev.code = 777 ELSE (cfg.vetostage # "PreReadHeader" => Ev.code = 0))
-  /\ done' = TRUE /\ UNCHANGED <<cfg, sp, cp, enters, vetoSeen, cveto, hexit>> /\ Step
+  /\ G("C09", IF CliWriteVeto THEN Ev.code = 777 ELSE (cfg.vetostage # "PreReadHeader" /\ cfg.vkind # "panic" => Ev.code = 0))
+  /\ done' = TRUE /\ UNCHANGED <<cfg, sp, cp, enters, vetoSeen, cveto, hexit, ppanic>> /\ Step
 
 Quiesce ==
   /\ Is("Quiesce") /\ done
@@ -93,10 +98,10 @@ Quiesce ==
   /\ G("C09", /\ (cfg.vetostage # "PreReadHeader" => sp = Len(cfg.exphooks) /\ cp = Len(cfg.expchooks))
               /\ (CliWriteVeto => Ev.ncall = 0 /\ Ev.npush = 0 /\ sp = 0)
               /\ (vetoSeen => Ev.enters = 0))
-  /\ UNCHANGED <<cfg, sp, cp, enters, vetoSeen, cveto, hexit, done>> /\ Step
+  /\ UNCHANGED <<cfg, sp, cp, enters, vetoSeen, cveto, hexit, done, ppanic>> /\ Step
 
 Known == {"Reset", "Hook", "HEnter", "HExit", "CallDone", "PushRet", "Quiesce", "CallHang", "PushHang", "SetupFailed"}
-Skip == l <= N /\ Ev.ev \notin Known /\ UNCHANGED <<cfg, sp, cp, enters, vetoSeen, cveto, hexit, done>> /\ Step
+Skip == l <= N /\ Ev.ev \notin Known /\ UNCHANGED <<cfg, sp, cp, enters, vetoSeen, cveto, hexit, done, ppanic>> /\ Step
 Next == Reset \/ Hook \/ HEnter \/ HExit \/ CallDone \/ PushRet \/ Quiesce \/ Skip
 Spec == Init /\ [][Next]_vars
 Accepted == PrintT(<<"HWM", TLCGet(1), N>>) /\ TRUE
